@@ -783,10 +783,52 @@ pub async fn wake_scenario(seed: u64) {
             break;
         }
     }
-    let pending: Vec<u64> = op3.iter().map(|o| o.id).collect();
+    // the receiver keeps receiving: it has consumed everything, so a send that is still pending is stuck
+    let rid = next_op + 1;
+    let mut rop2 = None;
+    if let Some(mut rx) = b_rx_back.take() {
+        tr(json!({"ev": "api_start", "op": rid, "ep": 2, "kind": "recv_any", "port": p32(b_port)}));
+        let mut o = Op::new(rid, 2, async move {
+            let r = rx.recv_any().await;
+            (r, rx)
+        });
+        for _ in 0..30 {
+            match o.poll() {
+                Polled::Ready((r, rx)) => {
+                    match r {
+                        Ok(Some(remoc::chmux::Received::Data(d))) => tr(json!({"ev": "api_done", "op": rid, "res": "data", "data": bytes_json(&Vec::<u8>::from(d))})),
+                        _ => tr(json!({"ev": "api_done", "op": rid, "res": "err", "err": "other"})),
+                    }
+                    b_rx_back = Some(rx);
+                    break;
+                }
+                _ => conn.flush().await,
+            }
+            // the pending send may complete now
+            if let Some(s3) = op3.as_mut() {
+                if s3.runnable() {
+                    if let Polled::Ready(ok) = s3.poll() {
+                        tr(json!({"ev": "api_done", "op": s3.id, "res": if ok { "ok" } else { "err" }, "err": "chmux"}));
+                        op3 = None;
+                    }
+                }
+            }
+        }
+        if b_rx_back.is_none() {
+            rop2 = Some(o);
+        }
+    }
+    let mut pending: Vec<u64> = op3.iter().map(|o| o.id).collect();
+    if rop2.is_some() {
+        pending.push(rid);
+    }
     tr(json!({"ev": "quiescent", "pending": pending, "settled": false}));
     if let Some(o) = op3 {
         tr(json!({"ev": "api_cancel", "op": o.id, "polls": o.polls}));
+    }
+    if let Some(o) = rop2 {
+        tr(json!({"ev": "api_cancel", "op": rid, "polls": o.polls}));
+        drop(o);
     }
     tr(json!({"ev": "drop", "ep": 1, "what": "sender", "port": p32(a_port)}));
     drop(a_tx);
